@@ -208,7 +208,12 @@ fn c20_oracle(c: &Case, outs: &[Out]) -> Vec<Finding> {
   // the string or the buffer constructor of RawSource) need not change the hash
   let exempt = c.note.ends_with("sms-name") || c.note.ends_with("raw-variant");
   // (the quantifier of C20 excludes the name of a SourceMapSource even where it changes map(): with an inner map)
-  let must_differ = !c.note.ends_with("sms-name") && ((c.note.starts_with("edit") && !exempt) || obs_a != obs_b);
+  // For the exempt kinds the two values differ in no observer by construction; where their observed answers still differ, that is the
+  // cache-history dependence of map() (known finding K3, reported by C14), not a difference of the trees — it demands no other hash.
+  // Likewise two independently generated trees that are the same tree up to cache ids.
+  fn strip_ids(t: &T) -> T { match t { T::Cached(_, i) => T::Cached(0, Box::new(strip_ids(i))), T::Concat(cs) => T::Concat(cs.iter().map(|(b, x)| (*b, strip_ids(x))).collect()), T::Replace(i, rs) => T::Replace(Box::new(strip_ids(i)), rs.clone()), x => x.clone() } }
+  let same_tree = c.trees.len() > 1 && strip_ids(&c.trees[0]) == strip_ids(&c.trees[1]);
+  let must_differ = !exempt && !same_tree && (c.note.starts_with("edit") || obs_a != obs_b);
   if must_differ {
     if hashes[0] == hashes[1] { v.push(finding("hash-separates", format!("{}: the two trees feed the hasher identically ({})", c.note, if obs_a != obs_b { "source()/buffer()/map() differ" } else { "listed edit" }))); }
     if eq { v.push(finding("unequal", format!("{}: the two trees compare equal", c.note))); }
